@@ -2778,3 +2778,45 @@ func ruleCacheEvict(prop string) ruleFn {
 		}
 	}
 }
+
+// REM-STORE-FIRST (C06, C08): a removal that storage refused can be retried.
+func ruleRemStoreFirst(prop string) ruleFn {
+	return func(w *World, r *Report) {
+		r.Rule("REM-STORE-FIRST", "in every State implementation's removal primitive (the function that deletes an id from the fact map) the record is removed from storage before it is forgotten in memory: a removal whose storage write fails then leaves memory and storage agreeing, and a retry finds the fact and reaches storage again.  If memory forgets first, the retry sees `not found`, skips the storage removal, and the fact comes back with the next reload", 2)
+		a := newLocAnchors(w)
+		for n := range a.stateImp {
+			owner := typeKey(n)
+			ff := stateFactField[owner]
+			if ff == "" {
+				continue
+			}
+			for _, fn := range w.MethodsOf(n) {
+				var dels, stos []ssa.Instruction
+				allInstrs(fn, func(in ssa.Instruction) {
+					if c, ok := isBuiltinCall(in, "delete"); ok && len(c.Call.Args) == 2 && isFieldLoad(c.Call.Args[0], owner, ff) {
+						dels = append(dels, in)
+					}
+					if d, ok := isStorageMutation(w, in); ok && strings.HasSuffix(d, "Remove") {
+						stos = append(stos, in)
+					}
+				})
+				if len(dels) == 0 || len(stos) == 0 {
+					continue
+				}
+				key := "fn=" + fname(fn)
+				bad := false
+				for _, d := range dels {
+					for _, s := range stos {
+						if reachable(fn, d, s) && !reachable(fn, s, d) {
+							r.violation("REM-STORE-FIRST", key, w.PosOf(d), "the fact is deleted from the fact map before Storage.Remove (at "+w.PosOf(s)+") is called: if that call fails, memory has already forgotten the fact and a retry never reaches storage")
+							bad = true
+						}
+					}
+				}
+				if !bad {
+					r.ok("REM-STORE-FIRST", key, w.PosOf(stos[0]), "storage first, then memory")
+				}
+			}
+		}
+	}
+}
